@@ -1,6 +1,6 @@
 
 // ===== appended by /verif (cfg(besok_jsonpath_rust_verif) only): access to private functions =====
-#[cfg(besok_jsonpath_rust_verif)]
+#[cfg(all(besok_jsonpath_rust_verif, feature = "vx_seg"))]
 pub(crate) mod verif_x {
     use super::*;
     pub(crate) fn process_descendant<T: Queryable>(data: Pointer<T>) -> Data<T> { super::process_descendant(data) }
